@@ -51,9 +51,12 @@ LITERALS = ('Str', 'Regex', 'Byte')
 
 
 class Checker:
-    def __init__(self, start_rules=('start', 'Start')):
+    def __init__(self, start_rules=('start', 'Start'), start_rule=None):
         self.reset()
         self.start_rules = start_rules
+        # the rule the module-level parse starts with, read off the emitted `def parse` (a grammar
+        # without a rule called start begins with its first rule)
+        self.start_rule = start_rule
         self.ignore_checks = True
 
     def reset(self):
@@ -105,7 +108,7 @@ class Checker:
             return
         if p.cls == 'Ref' and p.parent is not None and p.parent.cls == 'Discard' and p.parent.kids[0] is p:
             d = p.parent
-            if d.rule is not None and d.rule.lower() == 'start':
+            if d.rule is not None and (d.rule.lower() == 'start' or d.rule == self.start_rule):
                 return      # start = <leading skip> >> expr
             if d.parent is not None and d.parent.cls == 'Seq' and d.parent.kids[0] is d:
                 return      # first member of a start class
@@ -224,7 +227,9 @@ class Traced:
         isrc, n = instrument(src)
         if n == 0:
             return
-        self.ck = Checker()
+        sm = re.search(r'^def parse\(text, pos=0, fullparse=True\):\n    return _run\((?:_ctx, )?text, pos, (?:_ctx\.)?_try_(\w+), fullparse\)',
+                       src, re.M)
+        self.ck = Checker(start_rule=sm.group(1) if sm else None)
         m = types.ModuleType('vt_traced')
         m.__dict__['_vt'] = self.ck
         if exec_globals:
